@@ -168,6 +168,14 @@ func optsSingle(tier string) mck.Space {
 			c.Violation("opts:no-flag:"+s.yaml, "setting has no command-line flag", nil)
 			return
 		}
+		// the flag-to-setting table is discovered by probing the code: a flag that is NAMED like one setting's key
+		// but sets another setting must not be taken for "that setting's flag"
+		for _, t := range ss {
+			if t.field != s.field && s.flag == t.yaml {
+				c.Violation("opts:flag-sets-another-setting", fmt.Sprintf("the command-line flag -%s sets %s, not %s", s.flag, s.yaml, t.yaml), nil)
+				return
+			}
+		}
 		nsrc := 0
 		for b := 0; b < 3; b++ {
 			if subset&(1<<b) != 0 {
